@@ -10,7 +10,7 @@ import (
 // C11 — cancelling a batch stops new items and never hangs or fakes success.
 
 func VH_C11_batch() {
-	vUnwind(10)
+	vUnwind(24)
 	m := &bMon{}
 	bConfig(m)
 	m.stop = vNondet[bool]("stop")
